@@ -1,6 +1,7 @@
 package main
 
 import (
+	"github.com/biogo/biogo/io/seqio"
 	"bytes"
 	"fmt"
 	"io"
@@ -132,10 +133,19 @@ func c03Drive(r *obs.Run, kind string, data []byte, origin string) c03Outcome {
 	var read func() (interface{}, error)
 	switch kind {
 	case "fasta":
-		rd := fasta.NewReader(src, linear.NewSeq("", nil, alphabet.DNA))
+		var tmpl seqio.SequenceAppender = linear.NewSeq("", nil, alphabet.DNA)
+		if r.Rng.Intn(3) == 0 {
+			tmpl = linear.NewQSeq("", nil, alphabet.Protein, alphabet.Sanger)
+		}
+		rd := fasta.NewReader(src, tmpl)
 		read = func() (interface{}, error) { s, err := rd.Read(); return s, err }
 	case "fastq":
-		rd := fastq.NewReader(src, linear.NewQSeq("", nil, alphabet.DNA, alphabet.Sanger))
+		// every decoder sees arbitrary bytes, and so does the plain template
+		var tmpl seqio.SequenceAppender = linear.NewQSeq("", nil, alphabet.DNA, []alphabet.Encoding{alphabet.Sanger, alphabet.Sanger, alphabet.Solexa, alphabet.Illumina1_3, alphabet.Illumina1_5, alphabet.Illumina1_8, alphabet.Illumina1_9, alphabet.None}[r.Rng.Intn(8)])
+		if r.Rng.Intn(6) == 0 {
+			tmpl = linear.NewSeq("", nil, alphabet.DNA)
+		}
+		rd := fastq.NewReader(src, tmpl)
 		read = func() (interface{}, error) { s, err := rd.Read(); return s, err }
 	case "gff":
 		rd := gff.NewReader(src)
@@ -418,6 +428,9 @@ type c03Cat struct {
 // entries that are an error only as the first line of a file
 var c03FirstOnly = map[string]bool{"fasta sequence line before any header": true}
 
+// entries that are an error only as the last thing in the input (with or without a final newline)
+var c03LastOnly = map[string]bool{"fastq record cut off before its quality line": true}
+
 func gffLine(rng *rand.Rand, mod func(f []string) []string) string {
 	f := []string{"seq" + fmt.Sprint(rng.Intn(9)), "src", "feat", fmt.Sprint(1 + rng.Intn(100)), fmt.Sprint(200 + rng.Intn(100)), ".", "+", "."}
 	if rng.Intn(2) == 0 {
@@ -453,7 +466,7 @@ var c03Catalogue = func() []c03Cat {
 		}})
 	}
 	cat = append(cat, c03Cat{"gff", "gff start of zero", func(rng *rand.Rand) string {
-		return gffLine(rng, func(f []string) []string { f[3] = []string{"0", "00", "-0", "+0", "0x0"}[rng.Intn(5)]; return f })
+		return gffLine(rng, func(f []string) []string { f[3] = []string{"0", "00", "-0", "+0", "0x0", "0b0", "0o0", "0_0", "0X0", "000000"}[rng.Intn(10)]; return f })
 	}})
 	cat = append(cat, c03Cat{"gff", "gff bad strand", func(rng *rand.Rand) string {
 		return gffLine(rng, func(f []string) []string { f[6] = []string{"x", "++", "", "+-", "1", "*", "\x80", "\xff", "\xc3\xa9", "\x7f", string([]byte{byte(128 + rng.Intn(128))})}[rng.Intn(11)]; return f })
@@ -549,6 +562,17 @@ var c03Catalogue = func() []c03Cat {
 		}
 		return "@r1 d\n" + strings.Repeat("a", l) + "\n+\n" + q
 	}})
+	cat = append(cat, c03Cat{"fastq", "fastq record cut off before its quality line", func(rng *rand.Rand) string {
+		// the input ends after the + line (or inside it): letters without qualities are a length mismatch
+		l := 1 + rng.Intn(20)
+		return "@r1 d\n" + strings.Repeat("a", l) + []string{"\n+", "\n+r1 d", "\n+\n", "\n+r1 d\n"}[rng.Intn(4)]
+	}})
+	cat = append(cat, c03Cat{"bed12", "bed12 non-numeric block sizes or starts", func(rng *rand.Rand) string {
+		return bedLine(rng, 12, func(f []string) []string {
+			f[10+rng.Intn(2)] = []string{"1,x", "x,2", "1,,2", "1.5,2", ",", "1,2x", "1e1,2", "9223372036854775808,1"}[rng.Intn(8)]
+			return f
+		})
+	}})
 	cat = append(cat, c03Cat{"fastq", "fastq + line not repeating the header", func(rng *rand.Rand) string {
 		return "@r1 d\nacgt\n+r2\nIIII"
 	}})
@@ -622,6 +646,13 @@ func c03Case(r *obs.Run, i int) {
 			parts = append(parts, valid())
 		}
 		data := []byte(strings.Join(parts, "\n") + "\n")
+		if c03LastOnly[c.name] {
+			parts = parts[:pre+1]
+			data = []byte(strings.Join(parts, "\n"))
+			if rng.Intn(2) == 0 {
+				data = append(data, '\n')
+			}
+		}
 		c03Current.Store(fmt.Sprintf("catalogue %s: %q", c.name, truncBytes(data, 300)))
 		r.Crumb(fmt.Sprintf("catalogue %s: %q", c.name, truncBytes(data, 2000)))
 		o := c03Drive(r, c.kind, data, "catalogue: "+c.name)
